@@ -13,6 +13,15 @@ NOT_DECIDED = {
             "decided as 'applies pandas.merge left to right with these key / how / suffix arguments'",
             "tables are enumerated over three column layouts (all nine standard columns + an extra one; misnamed columns with a col_mapper; a "
             "partial table) with any number of rows; cells are strings with '' standing for a missing cell"],
+    "C12": ["find_neighbor_pairs: its loop removes each processed sequence from the reference set while appending pairs (state-carrying loop "
+            "over sorted(set(seqs)); sorted()'s order is not modelled): contract NOT discharged, run as a bounded stand-in over an enumerated "
+            "universe of string sets (listed under bounded_standins)",
+            "_isdist3_hamming: discharged by the thorough tier only (about 15 min of path enumeration); trusted + bounded stand-in in the quick tier",
+            "that the index forms ('k substitutions at k strictly increasing positions by different letters') are Hamming distance exactly k is the "
+            "Lean lemma file HamIndexForms (k = 1, 2, 3); that the one-edit index form is Levenshtein distance exactly 1 is L-n1 / L-step (Lean); the "
+            "SMT clauses and the Lean statements are related by hand transcription",
+            "the utilities are verified for an ARBITRARY neighbourhood callable abstracted to the set of strings it yields; order and multiplicity "
+            "of what a generator yields are not modelled for callables passed as arguments"],
     "C15": ["what igraph computes: 'connected_components().membership labels two vertices alike exactly when a path of edges joins them' and "
             "'community_* never merges different components' are ASSUMED contracts of igraph (third-party C library), not decided",
             "what SciPy's linkage / fcluster compute, and the cross-module clause 'single linkage cut at t = connected components of the max_edits = t "
